@@ -105,6 +105,34 @@ def run(ctx):
                 rep.bad('G3', name + ':range', 'not provably inside (0,1) for positive fc, ts: %s' % got, loc=loc, key='%s: range' % name)
         except Unsupported as e:
             rep.unk('G3', name, str(e))
+    # ---------------- G4 the generators saturate: no class of positive arguments turns into NaN / inf / a value above 1
+    import mag
+    EXPS = (-1074, -1022, -600, -100, -1, 0, 1, 100, 600, 1022, 1023)
+    for name in ('a_lpf_gen', 'a_hpf_gen'):
+        fn = ctx.fn('hdr_unit', name)
+        if fn is None:
+            rep.unk('G4', name, 'anchor vanished')
+            continue
+        loc = fn.loc(fn.entry.instrs[0])
+        if len(fn.params) != 2 or mag.run(fn, [mag.binade(0), mag.binade(0)]) is None:
+            rep.unk('G4', name, 'not straight-line arithmetic over the two arguments', loc=loc)
+            continue
+        worst, decided = [], 0
+        for a in EXPS:
+            for b in EXPS:
+                r = mag.run(fn, [mag.binade(a), mag.binade(b)])
+                if r in (mag.NAN, mag.INF) or (r[0] == 'm' and r[1] >= 1):
+                    worst.append((a, b, r))
+                if r != mag.TOP:
+                    decided += 1
+        if worst:
+            a, b, r = worst[0]
+            rep.bad('G4', name, 'for every %s in [2^%d, 2^%d] and %s in [2^%d, 2^%d] the result is %s, not a value of [0,1] (%d of %d magnitude classes)' % (
+                fn.params[0][1], a, a + 1, fn.params[1][1], b, b + 1, mag.show(r), len(worst), len(EXPS) ** 2), loc=loc, key='%s: saturation' % name)
+        else:
+            rep.ok('G4', name, 'magnitude classes of the arguments (%d x %d binades from 2^-1074 to 2^1023): no class yields NaN, inf or a value above 1 '
+                   '(%d classes decided, overflow / underflow of intermediate results included)' % (len(EXPS), len(EXPS), decided), loc=loc,
+                   sample={'fn': name, 'classes': len(EXPS) ** 2, 'decided': decided})
     try:
         ll = irx.compile_ir(ctx.scr, probe, ctx.cfg('all', 8), 'probe16')
         pm = llir.parse_module(ll)
@@ -126,6 +154,7 @@ def run(ctx):
     # ---------------- G1 transfer function
     tf(ctx)
     rep.floor('G3', 6)
+    rep.floor('G4', 2)
     rep.floor('G2', 8)
     rep.floor('G1', 7)
 
